@@ -7,8 +7,10 @@ package main
 import (
 	"fmt"
 	"os"
+	"runtime"
 	"sync"
 
+	tmsecp "github.com/cometbft/cometbft/crypto/secp256k1"
 	sdk "github.com/cosmos/cosmos-sdk/types"
 	didcrypto "github.com/medibloc/panacea-core/v2/x/did/client/crypto"
 	aoltypes "github.com/medibloc/panacea-core/v2/x/aol/types"
@@ -60,6 +62,32 @@ func statelessPass(iters int) {
 	}
 	doc := didtypes.NewDIDDocument("did:panacea:7Prd74ry1Uct87nZqL3ny7aR7Cg46JamVbJgk8azVgUm")
 	var wg sync.WaitGroup
+	// DID proofs made and verified concurrently on different documents: every valid proof must verify. Many more
+	// goroutines than processors, so that goroutines share per-P state (sync.Pool caches) and get switched often.
+	prev := runtime.GOMAXPROCS(2)
+	for g := 0; g < 48; g++ {
+		wg.Add(1)
+		go func(g int) {
+			defer wg.Done()
+			priv := tmsecp.GenPrivKeySecp256k1([]byte(fmt.Sprintf("race-key-%d", g)))
+			d := didtypes.NewDIDDocument(didtypes.NewDID(priv.PubKey().Bytes()))
+			for i := 0; i < iters*2; i++ {
+				if i%3 == 0 {
+					runtime.Gosched()
+				}
+				sig, err := didtypes.Sign(&d, uint64(i), priv)
+				if err != nil {
+					panic(err)
+				}
+				if _, ok := didtypes.Verify(sig, &d, uint64(i), priv.PubKey()); !ok {
+					fmt.Println("SNAPSHOT VIOLATION: a valid DID proof was rejected while other goroutines were signing/verifying (shared signing-bytes state)")
+					os.Exit(1)
+				}
+			}
+		}(g)
+	}
+	wg.Wait()
+	runtime.GOMAXPROCS(prev)
 	for g := 0; g < 16; g++ {
 		wg.Add(1)
 		go func() {
